@@ -433,7 +433,7 @@ struct E1 : Engine {
 		// late staller (C02): the first connection stalls in the middle of its request head and is cut by the inactivity watchdog; long after that - when the server has been
 		// idle - another peer does the same and must be cut as well
 		if(prop == "C02" && !conns.a.empty() && r.below(5) == 0){ int T = (int)cfg.geti("http_timeout",10);
-			auto staller = [&](J c,int delay_s){ c["proto"] = 0; c["start_delay_us"] = (long long)delay_s * 1000000; c["pipeline"] = 0; J e = c.get("ex").a.empty() ? J::obj() : c.get("ex").a[0]; if(!e.has("req")){ e["kind"] = "echo"; e["req"] = gen_req(r,prop,thorough,false,0); e["tag"] = "qL" + std::to_string(delay_s); e["seg"] = J::arr(); } e["kind"] = "echo"; J m = J::obj(); m["op"] = "truncate"; m["pos"] = (long long)(5 + r.below(30)); m["n"] = 1; m["byte"] = 0; m["len"] = 0; m["after"] = "wait"; e["mut"] = m; e["seg_delay_ms"] = J::arr(); J ex = J::arr(); ex.push(e); c["ex"] = ex; return c; };
+			auto staller = [&](J c,int delay_s){ c["proto"] = 0; c["start_delay_us"] = (long long)delay_s * 1000000; c["pipeline"] = 0; J e = c.get("ex").a.empty() ? J::obj() : c.get("ex").a[0]; if(!e.has("req")){ e["kind"] = "echo"; e["req"] = gen_req(r,prop,thorough,false,0); e["tag"] = "qL" + std::to_string(delay_s); e["seg"] = J::arr(); } e["kind"] = "echo"; if(delay_s > 0){ char tb[40]; snprintf(tb,sizeof(tb),"q%dz%06llx",tagn,(unsigned long long)(wire::fnv("tag" + std::to_string(tagn)) & 0xffffff)); tagn++; e["tag"] = tb; }   /* its own tag */ J m = J::obj(); m["op"] = "cl_bigger"; m["pos"] = (long long)(5 + r.below(30)); m["n"] = 1; m["byte"] = 0; m["len"] = (int)r.below(50); m["after"] = "wait"; e["mut"] = m; e["seg_delay_ms"] = J::arr(); J ex = J::arr(); ex.push(e); c["ex"] = ex; return c; };
 			conns.a[0] = staller(conns.a[0],0); conns.push(staller(conns.a[0],T + 3 + (int)r.below(T + 4))); p["late_staller"] = 1; }
 		p["conns"] = conns;
 		return p;
